@@ -287,6 +287,59 @@ func stable(e *env, gap time.Duration) string {
 	}
 }
 
+// bbSettled is the black-box quiescence criterion used when the white-box hook is replaced by its stub
+// (after the pool context is cancelled States() fails, so no worker count is available): either every
+// accepted task is already accounted for (ran or was handed back), or the run / handed-back counters of
+// all tasks have not moved for `quiet` (generous: a worker holding a received task would have to be
+// descheduled that long on an otherwise idle pool).  Returns false (inconclusive) when the counters keep
+// moving until `limit`.
+func bbSettled(e *env, quiet, limit time.Duration) bool {
+	sig := func() (string, bool) {
+		e.mu.Lock()
+		defer e.mu.Unlock()
+		var b strings.Builder
+		all := true
+		for _, t := range e.tasks {
+			r, m := atomic.LoadInt32(&t.runs), atomic.LoadInt32(&t.marked)
+			fmt.Fprintf(&b, "%d:%d:%d,", r, m, atomic.LoadInt64(&t.fin))
+			if t.sub == "ok" && r+m == 0 {
+				all = false
+			}
+		}
+		return b.String(), all
+	}
+	t0 := time.Now()
+	prev, all := sig()
+	if all {
+		return true
+	}
+	since := time.Now()
+	for time.Since(t0) < limit {
+		time.Sleep(2 * time.Millisecond)
+		cur, all := sig()
+		if all {
+			return true
+		}
+		if cur != prev {
+			prev, since = cur, time.Now()
+		} else if time.Since(since) >= quiet {
+			return true
+		}
+	}
+	return false
+}
+
+// bbMark renders the black-box quiescence field of a snapshot line (only in black-box mode)
+func bbMark(e *env, snap string) string {
+	if !strings.Contains(snap, "wb=na") {
+		return snap
+	}
+	if bbSettled(e, 1500*time.Millisecond, 8*time.Second) {
+		return snap + " bbq=1"
+	}
+	return snap + " bbq=0"
+}
+
 // unwrap the tasks returned by ShutdownNow by running them in marked mode
 func runMarked(ts []pool.Task) {
 	ctx := context.WithValue(context.Background(), markKey{}, 1)
@@ -375,6 +428,9 @@ func (sc *seqCase) op(line string, st *stats) string {
 		err := e.p.Submit(ctx, t)
 		cancel()
 		res = pool.VerifErrKind(err)
+		e.mu.Lock()
+		t.sub = res
+		e.mu.Unlock()
 	case "subnil":
 		res = pool.VerifErrKind(e.p.Submit(context.Background(), nil))
 	case "start":
@@ -430,6 +486,13 @@ func (sc *seqCase) op(line string, st *stats) string {
 			time.Sleep(200 * time.Microsecond)
 		}
 		res = "ok"
+		if !poolState(e.p).wb {
+			if bbSettled(e, 1500*time.Millisecond, 8*time.Second) {
+				res = "ok bbq=1"
+			} else {
+				res = "ok bbq=0"
+			}
+		}
 	case "waitdone":
 		if sc.done == nil {
 			res = "none"
@@ -656,6 +719,15 @@ func concCase(c conf, st *stats) string {
 	}
 	// settle: give stragglers (a worker that picked a task after ShutdownNow) time to finish
 	fin := stable(e, 500*time.Microsecond)
+	if strings.Contains(fin, "wb=na") {
+		ok := bbSettled(e, 1500*time.Millisecond, 8*time.Second)
+		fin = stable(e, 500*time.Microsecond)
+		if ok {
+			fin += " bbq=1"
+		} else {
+			fin += " bbq=0"
+		}
+	}
 	scancel()
 	sampWg.Wait()
 	if doneRes == "hang" {
@@ -1032,7 +1104,7 @@ func idleSubCase(c conf, st *stats) string {
 	jlo, jhi := c.i("jlo", -60), c.i("jhi", 200) // µs around the expiry
 	patience := time.Duration(c.i("patience", 100)) * time.Millisecond
 	r := vlib.NewRng(uint64(c.i("seed", 1)))
-	parked, lost, dup, stuck, badIt, done := 0, 0, 0, 0, -1, 0
+	parked, lost, dup, stuck, badIt, done, incon := 0, 0, 0, 0, -1, 0, 0
 
 	var e *env
 	setup := func() string {
@@ -1079,7 +1151,13 @@ func idleSubCase(c conf, st *stats) string {
 			time.Sleep(200 * time.Microsecond)
 		}
 		if !poolState(e.p).wb {
-			time.Sleep(300 * time.Millisecond) // black-box: no worker count after the cancel, just wait
+			// black-box: no worker count after the cancel; use the counter-based criterion, and if it
+			// cannot be established the pool's accounting is inconclusive (not counted)
+			if !bbSettled(e, 1500*time.Millisecond, 8*time.Second) {
+				incon++
+				st.Tasks += len(e.tasks)
+				return
+			}
 		}
 		bad := false
 		for _, t := range e.tasks {
@@ -1143,7 +1221,8 @@ func idleSubCase(c conf, st *stats) string {
 	if badIt < 0 {
 		teardown(done)
 	}
-	return fmt.Sprintf("ctor=ok iters=%d parked=%d lost=%d dup=%d stuck=%d badit=%d", done, parked, lost, dup, stuck, badIt)
+	return fmt.Sprintf("ctor=ok iters=%d parked=%d lost=%d dup=%d stuck=%d incon=%d badit=%d", done, parked, lost, dup, stuck,
+		incon, badIt)
 }
 
 // ---------------------------------------------------------------------------------------------
